@@ -162,6 +162,17 @@ func ruleOwnMut(p *Prog, r *Reporter) {
 				if isGlobal {
 					what = "a package-level variable"
 				}
+				// code outside the repository receiving a reference into a token: only contract-listed read-only callees
+				if bad == "" && ao.viaToken && ao.kind == oRef {
+					for _, callee := range callees {
+						if callee.Blocks != nil && p.isRepoFunc(callee) {
+							continue
+						}
+						if !readOnlyExternal(calleeName(callee)) {
+							bad = "it is passed to " + calleeName(callee) + " outside the repository, which is not in the table of callees known to neither write through nor retain their arguments (e.g. bytes.NewBuffer keeps the slice and later writes append into its spare capacity)"
+						}
+					}
+				}
 				// code outside the repository receiving the address of package-level state (caches, pools, shared buffers)
 				if bad == "" && isGlobal && ao.kind == oRef {
 					if _, isPtr := a.Type().Underlying().(*types.Pointer); isPtr {
@@ -370,4 +381,21 @@ func ruleOwnSummary(p *Prog, r *Reporter) {
 		fmt.Println(l)
 	}
 	r.OK("-", "-", "summary", "printed")
+}
+
+// readOnlyExternal: contract table of functions outside the repository that neither write through
+// nor retain the slices / pointers they are given (one line of reason each).
+func readOnlyExternal(name string) bool {
+	for _, pfx := range []string{
+		"crypto/ed25519.Verify", "crypto/ed25519.Sign", "crypto/ed25519.NewKeyFromSeed", // read key/message/seed bytes, return fresh values
+		"bytes.Equal", "bytes.Compare", "bytes.Contains", "bytes.HasPrefix", "bytes.HasSuffix", // pure comparisons
+		"google.golang.org/protobuf/proto.Marshal", "google.golang.org/protobuf/proto.Unmarshal", "google.golang.org/protobuf/proto.Size", "google.golang.org/protobuf/proto.Equal", // Marshal reads the message; Unmarshal reads the input bytes (copies bytes fields) and writes only its destination message
+		"fmt.", "strings.", "strconv.", "encoding/hex.EncodeToString", "encoding/hex.DecodeString", // formatting / pure string functions
+		"errors.", "time.", "math/big.", "regexp.", "reflect.TypeOf",
+	} {
+		if strings.HasPrefix(name, pfx) {
+			return true
+		}
+	}
+	return false
 }
